@@ -12,11 +12,34 @@ RULE = ("the real generic code instantiated with (i) a scalar that logs every to
 ASSUMPTIONS = ["double-double tolerance 1e-24 cond kappa relative (f64 shortcuts give >= 1e-17)"]
 
 
+def narrowing_sites():
+    """source audit: every `.to_f64()` call site outside float.rs, with the token of its line (translator-style tie to the source)"""
+    import os, re
+    sites = []
+    for root, _, files in os.walk("/repo/src"):
+        for f in sorted(files):
+            if f.endswith(".rs") and f != "float.rs" and "verif" not in root:
+                for line in open(os.path.join(root, f), errors="replace"):
+                    code = line.split("//")[0]
+                    if ".to_f64()" in code:
+                        sites.append((f, "log" if "logger.write" in code or "x.to_f64()).collect_vec" in code else code.strip()))
+    return sites
+
+
+# what the unchanged source contains: the three arguments of the Gamma draw, and the debug-log writes
+EXPECTED_SITES = [("gamma.rs", "a.to_f64(),"), ("gamma.rs", "p.to_f64(),"), ("gamma.rs", "epsilon_tolerance.to_f64(),")] + [("sampling.rs", "log")] * 7
+
+
 def ddf(p):
     return Fraction(b2f(p[0])) + Fraction(b2f(p[1]))
 
 
 def run(ctx):
+    sites = narrowing_sites()
+    ctx.extra["to_f64_call_sites"] = [list(t) for t in sites]
+    if sorted(sites) != sorted(EXPECTED_SITES):
+        ctx.mismatch("source audit: the set of `.to_f64()` call sites differs from the modelled one (Gamma draw arguments + debug log only)",
+                     None, [list(t) for t in sites], [list(t) for t in EXPECTED_SITES])
     ss = S.generate(ctx, 14 if ctx.quick else 100, 2 if ctx.quick else 4, max_e=6, max_loops=4, routings_per_graph=1, kinds=("uniform",))
     for s in ss:
         s["req"] = S.sample_request(s["case"], s["routing"], s["table"], s["xs"], debug=False, meta=True)
